@@ -40,6 +40,7 @@ func (f *Frame) enterLoop(li *loopInfo, b *ssa.BasicBlock, preds []*ssa.BasicBlo
 		}
 		ctx := f.specCtx(heaps[pi], env)
 		ctx.locals = true
+		ctx.block = b
 		for k, inv := range invs {
 			name := f.callPath + fmt.Sprintf("inv.entry.%d.%s", li.n, clauseName(inv, k))
 			if len(preds) > 1 {
@@ -75,6 +76,7 @@ func (f *Frame) enterLoop(li *loopInfo, b *ssa.BasicBlock, preds []*ssa.BasicBlo
 	li.hdrHeap = heap.clone()
 	ctx := f.specCtx(heap, nil)
 	ctx.locals = true
+	ctx.block = b
 	for _, inv := range invs {
 		vc.assume(implies(reach, ctx.evalBool(inv.E)))
 	}
@@ -123,6 +125,7 @@ func (f *Frame) backEdge(li *loopInfo, latch *ssa.BasicBlock) {
 	}
 	ctx := f.specCtx(f.end[latch].heap, env)
 	ctx.locals = true
+	ctx.block = li.header
 	suffix := ""
 	if len(li.latches) > 1 {
 		for k, l := range li.latches {
